@@ -340,7 +340,7 @@ func (g *rgen) histCase() obj {
 					continue
 				}
 				v := g.pick(vNum(0), vNum(1), vNum(2), vNum(3), vNum(5), vNum(-1), vNum(1.5), vStr("2"), vStr("x"), vNum(4294967296), vUndef, vNull, vBool(true),
-					obj{"t": "cobj", "id": 1, "vo": obj{"k": "ret", "v": vNum(float64(g.r.Intn(4)))}, "ts": obj{"k": "ret", "v": vStr("x")}}).(obj)
+					obj{"t": "cobj", "id": 1 + g.r.Intn(4), "vo": obj{"k": "ret", "v": vNum(2)}, "ts": obj{"k": "ret", "v": vStr("x")}}).(obj)
 				return obj{"op": "assign", "n": vStr("length"), "v": v}
 			case 4, 5:
 				name := histNames[g.r.Intn(len(histNames))]
